@@ -30,7 +30,9 @@ def evaluate(prop, repo, tier='quick'):
     mod = rule_module(prop)
     ctx = report.Ctx(prop, repo, tier)
     mod.run(ctx)
-    ctx.enforce_floors(mod.META.get('floors', {}))
+    if not ctx.violations:
+        # a tree that violates a rule may legitimately show fewer instances of the others
+        ctx.enforce_floors(mod.META.get('floors', {}))
     return ctx, mod
 
 
